@@ -2,8 +2,10 @@ package props
 
 import (
 	"fmt"
+	"go/constant"
 	"go/token"
 	"go/types"
+	"regexp"
 	"strings"
 
 	"golang.org/x/tools/go/ssa"
@@ -168,10 +170,16 @@ func ruleC12Gate(e *Env) {
 				return pred.Tuple{pred.Iface{Dyn: sc.dyn, V: pred.Sym{Name: "tok"}}, pred.Const{}}, nil
 			},
 			ut.String(): func(ev *pred.Evaluator, args []pred.Val) (pred.Val, error) {
+				args = e.Unpermuted("size", "unmarshalText", ut, args) // the recorded order (input, rule), whatever the present one
 				return pred.Tuple{pred.Term{Fn: "unmarshalText#0", Args: args}, pred.Term{Fn: "unmarshalText#1", Args: args}}, nil
 			},
 			ujo.String(): func(ev *pred.Evaluator, args []pred.Val) (pred.Val, error) {
 				return pred.Tuple{pred.Term{Fn: "object#0", Args: args[1:]}, pred.Term{Fn: "object#1", Args: args[1:]}}, nil
+			},
+			// the scenario is a text that is one well-formed JSON value (where the whole-input test sits — in this
+			// function or in its caller — and that it is made: C12.whole)
+			"encoding/json.Valid": func(ev *pred.Evaluator, args []pred.Val) (pred.Val, error) {
+				return pred.Const{V: constant.MakeBool(true)}, nil
 			},
 		}
 		mk := func() []pred.Val { return []pred.Val{pred.Sym{Name: "input"}, pred.Sym{Name: "r"}} }
@@ -238,6 +246,16 @@ func ruleC12Gate(e *Env) {
 				want = "0 / ParseError(wrap(ErrInvalidType))"
 			}
 			got := val + " / " + errk
+			// the text parser's result handed on in two steps (`v, err := unmarshalText(…); if err != nil { return 0, err };
+			// … return v, nil`) is the same outcome, told apart by the error test
+			if m := regexp.MustCompile(`^(unmarshalText)#0(\(.*\)) / unmarshalText#1(\(.*\))$`).FindStringSubmatch(want); m != nil && m[2] == m[3] {
+				switch v, asked := lf.Assign["nil? unmarshalText#1"+m[2]]; {
+				case asked && v == 0 && got == "unmarshalText#0"+m[2]+" / nil":
+					got = want
+				case asked && v != 0 && got == "0 / unmarshalText#1"+m[2]:
+					got = want
+				}
+			}
 			switch {
 			case want == "?":
 				e.S.Bad(rule, site, construct, "outcome "+got+" is decided without consulting what the documented gate depends on", e.Pos(jv), "")
@@ -278,7 +296,7 @@ func ruleC12Gate(e *Env) {
 	}
 	sums := map[string]pred.Summary{
 		ut.String(): func(ev *pred.Evaluator, args []pred.Val) (pred.Val, error) {
-			return pred.Term{Fn: "text", Args: args}, nil
+			return pred.Term{Fn: "text", Args: e.Unpermuted("size", "unmarshalText", ut, args)}, nil
 		},
 		jsonEntry.String(): func(ev *pred.Evaluator, args []pred.Val) (pred.Val, error) {
 			return pred.Term{Fn: "json", Args: args}, nil
